@@ -153,7 +153,7 @@ PROPS = {
     ),
     "C01": dict(
         families=[dict(name="tree", args=["-specs", "3,5,11,14"]), dict(name="pipe", args=["-specs", "3,11"]),
-                  dict(name="hist", args=["-specs", "3,5,11,14"])],
+                  dict(name="hist", args=["-specs", "3,5,11,14", "-n", "50"])],
         level_text="Theorems C01_roundtrip (commit then checkout into an absent slot reproduces the tracked tree, links "
                    "followed, for both strategies on either side), C01_commit_ok, C01_commit_keeps_logical(_links), "
                    "C01_invariants_preserved/_initial, C01_nonutf8_fails over the model of commit.go/checkout.go with the "
@@ -200,7 +200,10 @@ PROPS = {
         families=[dict(name="pipe", args=["-specs", "19,22,18"])],
         level_text="Theorems C09_executed_or_unchanged (after a successful recursive run every visited stage with a command "
                    "executed after all executed upstream stages, or its definition, plain inputs, owned inputs and outputs "
-                   "are as committed, in the FINAL workspace), C09_rerun_quiet, C09_rerun_sources over the model of "
+                   "are as committed, in the FINAL workspace), C09_rerun_quiet, C09_rerun_sources, C09_outputs_fresh (the 'Hence' "
+                   "clause: when commands are functions of their inputs and commits were made only after successful "
+                   "runs, every visited stage's outputs are what its command produces in the final workspace, "
+                   "contents read through cache links), C09_outputs_produced, C09_committed_fresh_partial over the model of "
                    "Index.Run with the repaired staleness rules, for every framed stage-command semantics. Tied to the "
                    "code by histories over {edit source, edit definition, damage/delete output, run [targets] [-s], "
                    "commit} on generated DAGs with real shell commands; after each recursive run the outputs are "
@@ -208,12 +211,16 @@ PROPS = {
         level_note="Known finding D19: downstream of a stage without inputs everything re-runs on every run (the last "
                    "sentence of the property is false there; exact characterisation proved).",
         assumptions=["stage commands are deterministic and write only their own outputs (exec_framed)",
+                     "C09_outputs_fresh: commands are functions of their inputs (exec_functional); no output lies at or under an input its stage does not own (inputs_wf, shown necessary); committed_fresh (established from a clean+fresh snapshot by C09_committed_fresh_partial; for directory artifacts 'a checksum determines the contents' is a premise)",
                      "outputs of different stages and plain inputs do not overlap (idx_wf; C10)"],
     ),
     "C15": dict(
         families=[dict(name="idem", args=["-specs", "2,16"]), dict(name="tree", args=["-specs", "2,16"])],
         level_text="Theorems C15_commit_repeat (a repeated commit returns exactly the same node, cache and record), "
-                   "C15_checkout_repeat, C15_mixed_logical, C15_mixed_checkout over the model of commit/checkout. Tied to "
+                   "C15_checkout_repeat, C15_mixed_logical, C15_mixed_checkout over the model of commit/checkout; "
+                   "C15_init_never_discards, C15_init_ok_iff, C15_init_repeat over Model/Init.v (init refuses exactly "
+                   "when the index exists and then changes nothing; the observed .dud before/after every `dud init` "
+                   "is compared with init_cmd, a freshly written configuration must be comment-only). Tied to "
                    "the code by all sequences over {commit, commit --copy, checkout, checkout --copy} of length <= 2 "
                    "(length 3 sampled; thorough: all of length <= 4) after an initial commit on file / directory / "
                    "pipeline fixtures incl. stage subsets: a repeated command must leave the whole project physically "
@@ -272,7 +279,9 @@ PROPS = {
         families=[dict(name="remote")],
         level_text="Theorems C11_push_closure, C11_push_fails_on_missing, C11_push_ok_iff, C11_fetch_complete, "
                    "C11_then_checkout (push, lose any subset, fetch: checkout behaves exactly as from the pushed cache "
-                   "and every object is 0444), C11_scope over the model of push.go / fetch.go. proof, partial: rclone is "
+                   "and every object is 0444), C11_scope, C11_fetch_retry (any number of part-way rclone failures followed by a "
+                   "successful fetch: every local object read-only, nothing lost; the pre-repair behaviour refuted, D25) "
+                   "over the model of push.go / fetch.go. proof, partial: rclone is "
                    "the function `transfer` (contract emulated by harness/fakebin/rclone). Tied to the code by pushing "
                    "1-3 stage projects (nesting, identical names in different directories, duplicate contents) to a "
                    "partially pre-populated remote, wiping an arbitrary subset of the local cache, fetching, and checking "
